@@ -60,7 +60,7 @@ def polygons():
         else:
             k = 2 + cut % (len(cyc) - 1)
             chain = cyc[:k]
-        return {'poly': [list(p) for p in chain], 'closed': closed}
+        return {'poly': [list(p) for p in chain], 'closed': closed, 'scribble': bool(rot % 2)}
     return st.builds(build, st.lists(dy, min_size=1, max_size=4), st.lists(dy, min_size=1, max_size=4),
                      st.integers(-6, 6).map(float), st.integers(-6, 6).map(float), st.integers(0, 40), st.booleans(),
                      st.sampled_from([True, True, True, False]), st.integers(0, 40))
